@@ -83,4 +83,169 @@ theorem percentile_ok (A : Arith V F) (h : StrictWeak A.vo.lt) (pn : Int) (pd : 
       simp only [List.any_eq_true]
       exact ⟨p, hm, by simp [A.eqvV_refl]⟩
 
+
+/-- what the statement requires of a median observation -/
+def medianOK (A : Arith V F) (xs : List (Pt V)) (out : List (Pt F)) : Bool :=
+  match out with
+  | [p] => medianValueOK A xs p.v && (decide (p.t = zeroTime) || decide (xs.map (·.t) = [p.t]))
+  | _ => false
+
+theorem mem_values_of_getElem (A : Arith V F) (xs : List (Pt V)) (k : Nat) (m : Pt V)
+    (hm : (sortByValue A.vo xs)[k]? = some m) : m.v ∈ xs.map (·.v) := by
+  have h1 := List.mem_of_getElem? hm
+  have h2 := (insertionSort_perm _ xs).mem_iff.mp h1
+  exact List.mem_map.mpr ⟨m, h2, rfl⟩
+
+/-- **median** under a strict weak value order -/
+theorem median_ok (A : Arith V F) (h : StrictWeak A.vo.lt) (xs : List (Pt V)) (hne : xs ≠ []) :
+    medianOK A xs (median A.vo A.fo xs) = true := by
+  have hlen : (sortByValue A.vo xs).length = xs.length := (insertionSort_perm _ xs).length_eq
+  match xs, hne with
+  | [p], _ =>
+    simp only [median, medianOK, medianValueOK, List.map_cons, List.map_nil, List.length_cons, List.length_nil]
+    have hk : isKth A [p.v] 0 p.v = true := by simp [isKth, h.irrefl]
+    by_cases hkt : A.vo.medianSingleKeepsTime = true <;> simp [hkt, hk, A.eqvF_refl]
+  | p :: q :: r, _ =>
+    have hn : (p :: q :: r).length = r.length + 2 := by simp
+    simp only [median]
+    by_cases heven : (sortByValue A.vo (p :: q :: r)).length % 2 = 0
+    · simp only [heven, if_true]
+      have h1 : (sortByValue A.vo (p :: q :: r)).length / 2 - 1 < (sortByValue A.vo (p :: q :: r)).length := by omega
+      have h2 : (sortByValue A.vo (p :: q :: r)).length / 2 < (sortByValue A.vo (p :: q :: r)).length := by omega
+      obtain ⟨lo, hlo⟩ : ∃ lo, (sortByValue A.vo (p :: q :: r))[(sortByValue A.vo (p :: q :: r)).length / 2 - 1]? = some lo :=
+        ⟨_, List.getElem?_eq_getElem h1⟩
+      obtain ⟨hi, hhi⟩ : ∃ hi, (sortByValue A.vo (p :: q :: r))[(sortByValue A.vo (p :: q :: r)).length / 2]? = some hi :=
+        ⟨_, List.getElem?_eq_getElem h2⟩
+      have flo := (sorted_point_facts A h _ _ lo hlo).1
+      have fhi := (sorted_point_facts A h _ _ hi hhi).1
+      have mlo := mem_values_of_getElem A _ _ lo hlo
+      have mhi := mem_values_of_getElem A _ _ hi hhi
+      simp only [hlo, hhi, medianOK, medianValueOK, List.length_map]
+      rw [hlen] at flo fhi heven
+      have hodd : ¬ ((p :: q :: r).length % 2 = 1) := by omega
+      simp only [hodd, if_false, decide_true, Bool.true_or, Bool.and_true, List.any_eq_true, List.mem_filter]
+      exact ⟨lo.v, ⟨mlo, flo⟩, hi.v, ⟨mhi, fhi⟩, A.eqvF_refl _⟩
+    · simp only [heven, if_false]
+      have h2 : (sortByValue A.vo (p :: q :: r)).length / 2 < (sortByValue A.vo (p :: q :: r)).length := by omega
+      obtain ⟨m, hm⟩ : ∃ m, (sortByValue A.vo (p :: q :: r))[(sortByValue A.vo (p :: q :: r)).length / 2]? = some m :=
+        ⟨_, List.getElem?_eq_getElem h2⟩
+      have fm := (sorted_point_facts A h _ _ m hm).1
+      have mm := mem_values_of_getElem A _ _ m hm
+      simp only [hm, medianOK, medianValueOK, List.length_map]
+      rw [hlen] at fm heven
+      have hodd : (p :: q :: r).length % 2 = 1 := by omega
+      simp only [hodd, if_true, decide_true, Bool.true_or, Bool.and_true, List.any_eq_true]
+      refine ⟨m.v, mm, ?_⟩
+      rw [Bool.and_eq_true]
+      exact ⟨fm, A.eqvF_refl _⟩
+
+
+/-! ### spread over integers -/
+
+theorem foldl_min_facts (l : List Int) : ∀ (init : Int),
+    let r := l.foldl (fun m v => if v < m then v else m) init
+    (r = init ∨ r ∈ l) ∧ r ≤ init ∧ ∀ x ∈ l, r ≤ x := by
+  induction l with
+  | nil => intro init; simp
+  | cons a l ih =>
+    intro init
+    simp only [List.foldl_cons]
+    by_cases ha : a < init
+    · simp only [ha, if_true]
+      obtain ⟨h1, h2, h3⟩ := ih a
+      refine ⟨?_, by omega, ?_⟩
+      · rcases h1 with h1 | h1
+        · right; rw [h1]; simp
+        · right; simp [h1]
+      · intro x hx
+        rcases List.mem_cons.mp hx with rfl | hx
+        · exact h2
+        · exact h3 x hx
+    · simp only [ha, if_false]
+      obtain ⟨h1, h2, h3⟩ := ih init
+      refine ⟨?_, h2, ?_⟩
+      · rcases h1 with h1 | h1
+        · left; exact h1
+        · right; simp [h1]
+      · intro x hx
+        rcases List.mem_cons.mp hx with rfl | hx
+        · omega
+        · exact h3 x hx
+
+theorem foldl_max_facts (l : List Int) : ∀ (init : Int),
+    let r := l.foldl (fun m v => if v > m then v else m) init
+    (r = init ∨ r ∈ l) ∧ init ≤ r ∧ ∀ x ∈ l, x ≤ r := by
+  induction l with
+  | nil => intro init; simp
+  | cons a l ih =>
+    intro init
+    simp only [List.foldl_cons]
+    by_cases ha : a > init
+    · simp only [ha, if_true]
+      obtain ⟨h1, h2, h3⟩ := ih a
+      refine ⟨?_, by omega, ?_⟩
+      · rcases h1 with h1 | h1
+        · right; rw [h1]; simp
+        · right; simp [h1]
+      · intro x hx
+        rcases List.mem_cons.mp hx with rfl | hx
+        · exact h2
+        · exact h3 x hx
+    · simp only [ha, if_false]
+      obtain ⟨h1, h2, h3⟩ := ih init
+      refine ⟨?_, h2, ?_⟩
+      · rcases h1 with h1 | h1
+        · left; exact h1
+        · right; simp [h1]
+      · intro x hx
+        rcases List.mem_cons.mp hx with rfl | hx
+        · omega
+        · exact h3 x hx
+
+/-- **spread** of an integer series inside the int64 range = maximum − minimum -/
+theorem spread_int_ok (F : Type) (fo : FOps F) (eqvF : F → F → Bool) (hF : ∀ x, eqvF x x = true)
+    (xs : List (Pt Int)) (hne : xs ≠ [])
+    (hrange : ∀ p ∈ xs, -9223372036854775808 ≤ p.v ∧ p.v ≤ 9223372036854775807) :
+    ∃ v, spread (intOps fo) xs = [⟨zeroTime, v⟩] ∧ spreadValueOK (intArith fo eqvF hF) xs v = true := by
+  refine ⟨_, rfl, ?_⟩
+  -- the folds over points are folds over the value list
+  have hmin : xs.foldl (fun m (p : Pt Int) => (intOps fo).minStep m p.v) (intOps fo).spreadInitMin =
+      (xs.map (·.v)).foldl (fun m v => if v < m then v else m) 9223372036854775807 := by
+    rw [List.foldl_map]; rfl
+  have hmax : xs.foldl (fun m (p : Pt Int) => (intOps fo).maxStep m p.v) (intOps fo).spreadInitMax =
+      (xs.map (·.v)).foldl (fun m v => if v > m then v else m) (-9223372036854775808) := by
+    rw [List.foldl_map]; rfl
+  simp only [hmin, hmax]
+  have hvs : ∀ x ∈ xs.map (·.v), -9223372036854775808 ≤ x ∧ x ≤ 9223372036854775807 := by
+    intro x hx
+    obtain ⟨p, hp, rfl⟩ := List.mem_map.mp hx
+    exact hrange p hp
+  have hne' : xs.map (·.v) ≠ [] := by simpa using hne
+  obtain ⟨a, ha⟩ := List.exists_mem_of_ne_nil _ hne'
+  obtain ⟨m1, m2, m3⟩ := foldl_min_facts (xs.map (·.v)) 9223372036854775807
+  obtain ⟨M1, M2, M3⟩ := foldl_max_facts (xs.map (·.v)) (-9223372036854775808)
+  have hmn_mem : (xs.map (·.v)).foldl (fun m v => if v < m then v else m) 9223372036854775807 ∈ xs.map (·.v) := by
+    rcases m1 with h | h
+    · have h1 := m3 a ha
+      have h2 := (hvs a ha).2
+      have : a = 9223372036854775807 := by omega
+      rw [h, ← this]; exact ha
+    · exact h
+  have hmx_mem : (xs.map (·.v)).foldl (fun m v => if v > m then v else m) (-9223372036854775808) ∈ xs.map (·.v) := by
+    rcases M1 with h | h
+    · have h1 := M3 a ha
+      have h2 := (hvs a ha).1
+      have : a = -9223372036854775808 := by omega
+      rw [h, ← this]; exact ha
+    · exact h
+  simp only [spreadValueOK, List.any_eq_true, Bool.and_eq_true, List.all_eq_true]
+  refine ⟨_, hmx_mem, ?_, _, hmn_mem, ?_, ?_⟩
+  · intro x hx
+    have := M3 x hx
+    simp [intArith, intOps]; omega
+  · intro x hx
+    have := m3 x hx
+    simp [intArith, intOps]; omega
+  · simp [intArith, intOps]
+
 end Influx.Reducers.Lemmas
